@@ -444,6 +444,9 @@ func itemKey(d dataCase, it *dataItem) map[string]interface{} {
 	key := dataKey(d)
 	key["content"] = it.Name
 	key["bytes"] = fmt.Sprintf("%x", it.bytes)
+	if d.Loader == "json" && strings.Contains(string(it.bytes), `"__proto__":`) {
+		key["json_proto_key"] = true // the document has an own property named __proto__
+	}
 	return key
 }
 
